@@ -792,3 +792,48 @@ def _any_input(rng, kind):
         r["picked"] = picked
         return ts, r
     raise ValueError(kind)
+
+
+def mirrored_blocks(rng, n=None):
+    """Two copies of the same local trees side by side: block A on [0, L0) over samples 0..n-1 with one
+    further sample isolated there, block B on [L0, 2 L0) over fresh internal nodes, the further sample
+    joined above the old root.  Corresponding nodes of A and B have identical (samples below, span)
+    records but live in trees with n and n+1 samples respectively."""
+    n = int(rng.integers(3, 8)) if n is None else n
+    L0 = float(rng.choice([20, 50, 100]))
+    for _ in range(20):
+        base = msprime.sim_ancestry(samples=n, ploidy=1, sequence_length=L0, population_size=100.0,
+                                    recombination_rate=float(rng.choice([1.0, 3.0])) / (400.0 * L0),
+                                    random_seed=_seed(rng), discrete_genome=True)
+        if 2 <= base.num_trees <= 8:
+            break
+    t = tskit.TableCollection(2 * L0)
+    for _ in range(n + 1):
+        t.nodes.add_row(flags=tskit.NODE_IS_SAMPLE, time=0.0)
+    extra = n
+    amap, bmap = {}, {}
+    for u in range(base.num_nodes):
+        if base.nodes_flags[u] & tskit.NODE_IS_SAMPLE:
+            amap[u] = bmap[u] = u
+        else:
+            amap[u] = t.nodes.add_row(flags=0, time=float(base.nodes_time[u]))
+    for u in range(base.num_nodes):
+        if not (base.nodes_flags[u] & tskit.NODE_IS_SAMPLE):
+            bmap[u] = t.nodes.add_row(flags=0, time=float(base.nodes_time[u]))
+    top = t.nodes.add_row(flags=0, time=float(base.nodes_time.max()) * 1.5 + 1.0)
+    for e in base.edges():
+        t.edges.add_row(e.left, e.right, amap[e.parent], amap[e.child])
+        t.edges.add_row(e.left + L0, e.right + L0, bmap[e.parent], bmap[e.child])
+    for tree in base.trees():
+        t.edges.add_row(tree.interval.left + L0, tree.interval.right + L0, top, bmap[tree.root])
+    t.edges.add_row(L0, 2 * L0, top, extra)
+    t.sort()
+    t.edges.squash()
+    t.sort()
+    t.build_index()
+    ts = t.tree_sequence()
+    # a few mutations so that every method accepts it
+    mts = msprime.sim_mutations(ts, rate=5.0 / max(ts.segregating_sites(mode="branch", span_normalise=False), 1e-300),
+                                random_seed=_seed(rng), discrete_genome=True)
+    return mts, dict(gen="mirrored_blocks", n=n, L=2 * L0, trees=mts.num_trees, muts=mts.num_mutations, Ne=100.0,
+                     mu=5.0 / max(ts.segregating_sites(mode="branch", span_normalise=False), 1e-300))
